@@ -450,11 +450,12 @@ def aggregation(run, repo):
         attrs = dict(modes)
         attrs['name'] = 'sp'
         attrs['elements'] = DictV({'A': D.sym('nA')})
+        attrs['groups'] = DictV({'G1': D.sym('nG1'), 'G2': D.sym('nG2')})       # a user-defined descriptor
         if references:
             refs = opaque_obj(I, 'refs', {m: ('descriptors', 'T') for m in methods},
                               rewrite={'get_GoRT': twin_rewrite('get_HoRT', 'get_SoR'),
                                        'get_FoRT': twin_rewrite('get_UoRT', 'get_SoR')})
-            refs.attrs['descriptor'] = 'elements'
+            refs.attrs['descriptor'] = references if isinstance(references, str) else 'elements'
             attrs['references'] = refs
         else:
             attrs['references'] = None
@@ -475,21 +476,24 @@ def aggregation(run, repo):
         ident = C(1) if op == 'prod' else C(0)
         owner, fn = repo.find_method(ci, mname)
         run.fn(owner.qual + '.' + mname)
-        for references in (True, False):
+        for references in ('elements', 'groups', False):
             for misc in (True, False):
                 I = Interp(repo)
                 D = I.D
                 T, P = D.sym('T'), D.sym('P')
                 sp, modes = build(I, references, misc)
-                key = '%s refs=%s misc=%s' % (mname, references, misc)
+                key = '%s refs=%s misc=%s' % (mname, {'elements': True, 'groups': 'by groups', False: False}[references],
+                                              misc)
                 kw = {'T': T, 'P': P}
                 verbose = I.call_method(sp, mname, [], dict(kw, verbose=True))
                 total = I.call_method(sp, mname, [], dict(kw))
                 # expected per-mode list
                 exp = [val(I, modes[a], mname, kw) for a in MODE_ATTRS]
                 if references:
+                    # the references are described by the attribute THEY name (elements by default, any other
+                    # composition-like dictionary of the species otherwise)
                     exp.append(val(I, sp.attrs['references'], mname,
-                                   {'descriptors': sp.attrs['elements'], 'T': T}))
+                                   {'descriptors': sp.attrs[references], 'T': T}))
                 else:
                     exp.append(ident)
                 if misc:
@@ -740,6 +744,60 @@ def ident(run, repo, I, store):
     return n
 
 
+def geometry_from_atoms(run, repo):
+    """Linearity guessed from a structure: a molecule is linear when every angle between three of its atoms is within
+    the tolerance of 0 or of 180 degrees - on both sides of 180 and whatever order the atoms come in.  Which side of
+    180 an angle of a linear molecule lands on is a matter of orientation and rounding (a rotated CO2 gives
+    179.999999), so an asymmetric test makes the geometry - and with it the rotational partition function - depend on
+    how the molecule is positioned."""
+    m = repo.module(SM + '.rot')
+    fn = m.functions.get('get_geometry_from_atoms')
+    if fn is None:
+        raise AnchorError(SM + '.rot.get_geometry_from_atoms not found')
+    run.fn(SM + '.rot.get_geometry_from_atoms')
+    n = 0
+
+    def atoms_obj(I, natoms, angles):
+        o = Obj('atoms', closed=True)
+        o.opaque_methods['__len__'] = lambda I_, ob, a, k: C(natoms)
+        calls = []
+
+        def get_angle(I_, ob, a, k):
+            key = tuple(int(x.const_value()) if not x.iszero() else 0 for x in a[:3])
+            calls.append(key)
+            return C(angles[len(calls) - 1] if len(calls) <= len(angles) else angles[-1])
+        o.opaque_methods['get_angle'] = get_angle
+        return o
+    for tol in (None, Fr(1)):
+        t = Fr(5) if tol is None else tol
+        probes = [Fr(0), t / 2, t - Fr(1, 100), t + Fr(1, 100), Fr(60), Fr(90), Fr(120), 180 - t - Fr(1, 100),
+                  180 - t + Fr(1, 100), 180 - t / 2, Fr('179.999999'), Fr(180)]
+        for ang in probes:
+            for natoms, pattern in ((3, [ang]), (4, [Fr(0), Fr(180), ang, Fr(180)])):
+                I = Interp(repo, order=RankOrder({}, const_ranks=True))
+                at = atoms_obj(I, natoms, pattern)
+                kw = {'atoms': at}
+                if tol is not None:
+                    kw['degree_tol'] = C(tol)
+                got = I.call_function(m, fn, [], kw)
+                lin = ang <= t or ang >= 180 - t
+                n += 1
+                run.check(got == ('linear' if lin else 'nonlinear'), 'BRANCH.collinear',
+                          'rot.get_geometry_from_atoms', 'angle %s tol %s atoms %d' % (float(ang), float(t), natoms),
+                          'a molecule whose only non-trivial angle is %s degrees (tolerance %s) is classified %s, '
+                          'expected %s: the collinearity test must accept both sides of 0 and of 180 degrees'
+                          % (float(ang), float(t), show(got), 'linear' if lin else 'nonlinear'), m, fn,
+                          sample='angle %s -> %s' % (float(ang), 'linear' if lin else 'nonlinear')
+                          if natoms == 3 and tol is None else None)
+    for natoms, want in ((1, 'monatomic'), (2, 'linear')):
+        I = Interp(repo)
+        got = I.call_function(m, fn, [], {'atoms': atoms_obj(I, natoms, [Fr(90)])})
+        n += 1
+        run.check(got == want, 'BRANCH.collinear', 'rot.get_geometry_from_atoms', '%d atom(s)' % natoms,
+                  'a structure of %d atom(s) is classified %s, expected %s' % (natoms, show(got), want), m, fn)
+    return n
+
+
 def check(run, repo):
     run.explanation = (
         'Every getter of every mode class (and of the models that can sit in misc_models) is interpreted '
@@ -774,6 +832,8 @@ def check(run, repo):
     n = cached_fields(run, repo)
     run.floor('cache/filter instances', n, 20)
     symmetry_labels(run, repo)
+    n = geometry_from_atoms(run, repo)
+    run.floor('collinearity instances', n, 40)
 
 
 V = 'pmutt/statmech/vib.py'
@@ -782,6 +842,10 @@ TR = 'pmutt/statmech/trans.py'
 SMI = 'pmutt/statmech/__init__.py'
 EL = 'pmutt/statmech/elec.py'
 MUTANTS = [
+    {'name': 'collinearity test accepts only angles near 0', 'expect': ('BRANCH.collinear', 'get_geometry_from_atoms'),
+     'edits': [(R_, '''            if not np.isclose(angle, 0., atol=degree_tol) \\
+               and not np.isclose(angle, 180., atol=degree_tol):''',
+                '''            if not np.isclose(angle, 0., atol=degree_tol):''')]},
     {'name': 'Debye K integrand loses e^x', 'expect': ('REF.debye integrand', 'K-integrand'),
      'edits': [(V, 'return (x**4) * np.exp(x) / (np.exp(x) - 1.)**2', 'return (x**4) / (np.exp(x) - 1.)**2')]},
     {'name': 'Debye integral runs to T/theta', 'expect': ('REF.debye limits', 'DebyeVib'),
